@@ -5,6 +5,7 @@ not model raises Unsupported, which the driver reports as `undecided`, never as 
 """
 from __future__ import annotations
 import ast
+import os
 import builtins
 import dataclasses
 import types
@@ -20,6 +21,10 @@ class Unsupported(Exception):
 
 class SpecAbort(Exception):
     pass
+
+
+class EngineFault(Exception):
+    """the executor detected an inconsistency in itself (exit 3, never a verdict)"""
 
 
 class PathAbort(Exception):
@@ -122,51 +127,86 @@ class Ctx:
         self.pc = []
         self.obls = []
         self.axioms = list(axioms)
+        from .abstract import SeqAbs
+        self.abs = SeqAbs()
         self.solver = z3.Solver()
         self.solver.set('timeout', timeout_ms)
-        self.solver.set('smt.mbqi', False)
-        self.solver.set('smt.arith.nl', False)
         for a in self.axioms:
             self.solver.add(a)
         self.ghost = {}
         self.fname = fname
         self.counters = {}
         self.nchecks = 0
+        self.nmodel_hits = 0
+        self.model = None
         self.notes = []
 
     # -- path condition -------------------------------------------------------------------
-    def assume(self, c):
+    def assume(self, c, solver=True):
         c = zbool(c)
         if c is True or z3.is_true(c):
             return
         self.pc.append(c)
+        if not solver:
+            return           # kept for the obligations only (see define(lenfact=True))
+        if self.model is not None and not self._model_says(c):
+            self.model = None
         if has_quantifier(c):
             # quantified facts are kept for the obligations but not given to the path solver:
             # feasibility checks stay fast and merely over-approximate (an infeasible path that is
             # explored costs time, never soundness: its obligations carry the full path condition)
             self.nquant = getattr(self, 'nquant', 0) + 1
         else:
-            self.solver.add(c)
+            self.solver.add(self.weak(c))
 
-    def define(self, c):
+    def define(self, c, lenfact=False):
         """a universally valid fact about a term just created (an instance of a prelude law): survives
-        the end of a speculative evaluation, unlike path-specific assumptions"""
+        the end of a speculative evaluation, unlike path-specific assumptions.  lenfact: the output
+        length of an uninterpreted function -- not given to the path solver (the executor tracks such
+        lengths itself, and long fixed-length strings make satisfiable checks slow)"""
         if self.ghost.get('speculating', 0):
-            self.ghost.setdefault('spec_defs', []).append(c)
-        self.assume(c)
+            self.ghost.setdefault('spec_defs', []).append((c, lenfact))
+        self.assume(c, solver=not lenfact)
+
+    def weak(self, c):
+        """the formula the path solver sees: byte-string content abstracted (abstract.py)"""
+        a = self.abs.form(c)
+        for f in self.abs.facts():
+            self.solver.add(f)
+        return a
+
+    def _model_says(self, c):
+        """True only if the cached model of the (abstract) path condition definitely satisfies c"""
+        try:
+            if has_quantifier(c):
+                return False
+            v = self.model.eval(self.weak(c), model_completion=True)
+            return z3.is_true(v)
+        except z3.Z3Exception:
+            return False
 
     def feasible(self, c=None):
+        if self.model is not None and (c is None or self._model_says(c)):
+            self.nmodel_hits += 1
+            return True
         self.nchecks += 1
         if c is None:
             r = self.solver.check()
         else:
-            r = self.solver.check(c)
+            r = self.solver.check(self.weak(c))
+        if r == z3.sat and not self.ghost.get('speculating', 0):
+            try:
+                self.model = self.solver.model()
+            except z3.Z3Exception:
+                self.model = None
         return r != z3.unsat
 
     def valid(self, c):
         """pc |= c ?  (unknown counts as not valid)"""
         self.nchecks += 1
-        return self.solver.check(z3.Not(c)) == z3.unsat
+        if has_quantifier(c):
+            return False
+        return self.solver.check(self.weak(z3.Not(c))) == z3.unsat
 
     def choose(self, options, label=''):
         """n-way decision.  options: list of z3 Bool / python bool conditions (not necessarily
@@ -195,7 +235,14 @@ class Ctx:
             return feas[0]
         if i < len(self.prefix):
             k = self.prefix[i]
-            if k >= n or not ok(k):
+            if isinstance(k, tuple):
+                k, plabel, pn = k
+                if plabel != label or pn != n:
+                    raise EngineFault(f'decision misalignment at {i}: replay sees {label}/{n}, '
+                                      f'the run that produced the prefix saw {plabel}/{pn}')
+            # decisions before the last forced one were found feasible by the run that produced this
+            # prefix; only the last (the alternative being tried) needs a check
+            if k >= n or (i == len(self.prefix) - 1 and not ok(k)):
                 raise PathAbort('infeasible')
             self.taken.append((k, n, label))
         else:
@@ -281,6 +328,9 @@ def type_of(v):
         return Opaque
     if isinstance(v, SV):
         raise Unsupported('type_of unresolved SV')
+    pt = getattr(v, '_pytype', None)
+    if pt is not None:
+        return pt
     return type(v)
 
 
@@ -327,6 +377,9 @@ class Interp:
         if is_sym_bool(v):
             return v
         if is_sym_int(v):
+            f = self.models.bv_form(v)
+            if f is not None:
+                return f != 0
             return v != 0
         if isinstance(v, SB):
             n = v.length()
@@ -362,17 +415,18 @@ class Interp:
         V = VAL
         cache = self.ctx.ghost.setdefault('resolved', {})
         hit = cache.get(e.get_id())
-        if hit is not None and not self.ctx.ghost.get('speculating', 0):
-            return hit[1]
-        r = self._resolve(e)
+        if hit is not None:
+            return hit[1]          # established earlier on this path (entries are never stored while speculating)
+        r = self._resolve(e, v.hint)
         if not self.ctx.ghost.get('speculating', 0):
             cache[e.get_id()] = (e, r)
         return r
 
-    def _resolve(self, e):
+    def _resolve(self, e, hint=None):
         V = VAL
+        # (a value read from a dict or passed as an argument is never `absent`)
         opts = [V.is_vbytes(e), V.is_vint(e), V.is_vblist(e), V.is_vbool(e), V.is_vstr(e), V.is_vfloat(e),
-                V.is_vnone(e), V.is_vref(e), V.is_vopq(e), V.is_absent(e)]
+                V.is_vnone(e), V.is_vref(e), V.is_vopq(e)]
         k = self.ctx.choose(opts, 'type')
         if k == 0:
             return sym_bytes(V.y(e))
@@ -391,26 +445,21 @@ class Interp:
         if k == 6:
             return None
         if k == 7:
-            return self.deref(V.r(e))
+            return self.deref(V.r(e), hint)
         if k == 8:
             return Opaque('opq', V.o(e))
         raise Unsupported('use of absent value')
 
-    def deref(self, rid):
+    def deref(self, rid, hint=None):
         """reference id -> heap object (known objects first, else a registered unknown)."""
         heap = self.ctx.ghost.setdefault('heap', {})
         c = sym.concrete_int(rid)
         if c is not None and c in heap:
             return heap[c]
-        cands = list(heap.items())
-        opts = [zint(rid) == k for k, _ in cands] + [z3.And(*[zint(rid) != k for k, _ in cands]) if cands else True]
-        k = self.ctx.choose(opts, 'alias')
-        if k < len(cands):
-            return cands[k][1]
         mk = self.ctx.ghost.get('unknown_factory')
         if mk is None:
             return Opaque('ref', rid)       # an object the engine knows nothing about
-        return mk(self, rid)
+        return mk(self, rid, hint)
 
     def to_val(self, v):
         """python-side value -> z3 Val (for storing into HDict / ZList('val'))."""
@@ -512,7 +561,7 @@ class Interp:
         self.depth += 1
         if self.depth > 60:
             raise Unsupported('interpreter recursion depth')
-        self.frames.append({'key': f.key or f.name, 'loop': 0, 'call': {}, 'globs': f.globs})
+        self.frames.append({'key': f.key or f.name, 'loop': 0, 'call': {}, 'globs': f.globs, 'env': env})
         side = str(f.globs.get('__name__', '')).startswith('contracts.')
         if side:
             self.spec_depth += 1
@@ -642,10 +691,41 @@ class Interp:
                 t = cb
         if not isinstance(t, bool) and self.try_merge_if(st, t, env):
             return
+        if not isinstance(t, bool) and self.try_guarded_assert(st, t, env):
+            return
         if self.ctx.branch(t, 'if'):
             self.run_block(st.body, env)
         else:
             self.run_block(st.orelse, env)
+
+    # -- `if g: sert(c, msg)` is one conditional raise (g and not c), not a three-way fork ------
+    def try_guarded_assert(self, st, guard, env):
+        if st.orelse or len(st.body) != 1 or not isinstance(st.body[0], ast.Expr):
+            return False
+        call = st.body[0].value
+        if not (isinstance(call, ast.Call) and isinstance(call.func, ast.Name) and call.args and not call.keywords):
+            return False
+        try:
+            fn = self.ev(call.func, env)
+        except Unsupported:
+            return False
+        key = self.src.key_of(fn) if isinstance(fn, types.FunctionType) else None
+        c = self.reg.get(key) if (key and self.reg) else None
+        exc = c.cls.__dict__.get('assertlike') if c is not None else None
+        if exc is None:
+            return False
+        box = {}
+
+        def f(scratch):
+            box['v'] = self.truth(self.ev(call.args[0], scratch))
+            return scratch.vars
+        if self.speculate(f, env, guard) is None:
+            return False
+        d = box['v']
+        fail = guard if d is False else (False if d is True else z3.And(guard, z3.Not(d)))
+        if self.ctx.branch(fail, 'guarded-assert'):
+            raise PyRaise(exc, PyExcVal(exc, ()))
+        return True
 
     # -- if-conversion: both arms are pure assignments to local names --------------------------
     def _simple_arm(self, body):
@@ -687,13 +767,31 @@ class Interp:
         allowing any fork, raise, obligation or heap write.  Returns fn's result (dict of changed
         locals) or None if speculation is not possible."""
         ctx = self.ctx
+        # whether a speculation succeeds is itself recorded in the decision log (it may depend on a
+        # solver time-out), so that a replay follows exactly the same control flow
+        top = not ctx.ghost.get('speculating', 0)
+        forced = None
+        if top:
+            i = len(ctx.taken)
+            if i < len(ctx.prefix):
+                ent = ctx.prefix[i]
+                if not (isinstance(ent, tuple) and ent[1] == 'spec'):
+                    raise EngineFault(f'decision misalignment at {i}: replay reaches a speculation, '
+                                      f'the run that produced the prefix saw {ent!r}')
+                forced = ent[0]
+                if forced == 0:
+                    ctx.taken.append((0, 1, 'spec'))
+                    return None
         scratch = Env(dict(env.vars), env.parent)
         ctx.solver.push()
         saved = (len(ctx.pc), len(ctx.taken), len(ctx.obls), list(ctx.prefix), dict(ctx.counters))
         outer_defs = ctx.ghost.get('spec_defs')
         ctx.ghost['spec_defs'] = []
-        ctx.solver.add(cond)
+        ctx.solver.add(ctx.weak(cond))
         ctx.pc.append(cond)
+        saved_model = ctx.model
+        if ctx.model is not None and not ctx._model_says(cond):
+            ctx.model = None         # the cached model does not satisfy the guard
         old_guard = ctx.ghost.get('speculating', 0)
         ctx.ghost['speculating'] = old_guard + 1
         ok = True
@@ -706,10 +804,15 @@ class Interp:
                 ok = False
             else:
                 out = {k: v for k, v in vars_after.items() if k not in before or before[k] is not v}
-        except (PyRaise, PathAbort, _Return, _Break, _Continue, SpecAbort):
+        except (PyRaise, PathAbort, _Return, _Break, _Continue, SpecAbort) as ex_:
             ok = False
+            if os.environ.get('PYVC_DEBUG') == '2':
+                import traceback
+                print('speculation aborted by', repr(ex_))
+                traceback.print_exc(limit=-4)
         finally:
             ctx.ghost['speculating'] = old_guard
+            ctx.model = saved_model
             ctx.solver.pop()
             del ctx.pc[saved[0]:]
             del ctx.taken[saved[1]:]
@@ -718,8 +821,12 @@ class Interp:
             ctx.counters = saved[4]
             defs = ctx.ghost.get('spec_defs', [])
             ctx.ghost['spec_defs'] = outer_defs
-            for c in defs:
-                ctx.define(c)        # re-assert at the enclosing level (or pass on to the outer speculation)
+            for c, lf in defs:
+                ctx.define(c, lf)    # re-assert at the enclosing level (or pass on to the outer speculation)
+        if top:
+            if forced == 1 and not ok:
+                raise EngineFault('a speculation that succeeded in the run that produced the prefix fails on replay')
+            ctx.taken.append((1 if ok else 0, 1, 'spec'))
         return out if ok else None
 
     def heap_write_guard(self):
@@ -1031,16 +1138,17 @@ class Interp:
         objs = []
         if not mods:
             mods, objs = self.auto_modifies(node, env, assigned)
+        lists = spec.get('lists', {})
         for name in sorted(assigned):
             if name in env.vars:
-                env.vars[name] = havoc_value(self, env.vars[name], name)
+                env.vars[name] = havoc_value(self, env.vars[name], name, lists.get(name))
         for path in mods:
             self.havoc_path(env, path)
         for name, o in objs:
             if isinstance(o, list):
                 # a python list mutated in the loop: rebind the local variable to a symbolic list
                 if name in env.vars and env.vars[name] is o:
-                    env.vars[name] = havoc_value(self, o, name)
+                    env.vars[name] = havoc_value(self, o, name, lists.get(name))
                 else:
                     raise Unsupported(f'loop mutates python list reachable as {name}')
             else:
@@ -1341,6 +1449,8 @@ class Interp:
         m = self.models.attr_model(self, o, attr)
         if m is not _MISSING:
             return m
+        if getattr(o, '_symbolic', False) and attr in getattr(o, '__dict__', {}):
+            return getattr(o, attr)
         if is_concrete(o) or isinstance(o, (types.ModuleType, type)):
             try:
                 return getattr(o, attr)
@@ -1669,6 +1779,9 @@ class Interp:
             return self.models.call_enum(self, fn, args, kwargs)
         if isinstance(fn, Opaque):
             return self.models.call_opaque(self, fn, args, kwargs)
+        if fn is None or isinstance(fn, (bool, int, float, bytes, str, SB, SStr, SF, ZList, HDict, tuple, list, dict)) \
+                or is_sym_int(fn) or is_sym_bool(fn):
+            self.raise_(TypeError, 'object is not callable')
         if isinstance(fn, (types.FunctionType, types.MethodType)):
             af = self.wrap_function(fn)
             if af is not None:
